@@ -91,6 +91,29 @@ def run_script(kind, toks):
         codes.append(c)
     return sh, codes
 
+# operation -> (class bit in the harness, containers that have it, precondition on the shape)
+M_PUSH, M_POP, M_RESIZE, M_CLEAR, M_SET, M_COPY, M_MOVE, M_SWAP, M_B, M_CTORN = [1 << i for i in range(10)]
+VS = ('vec', 'sv2', 'sv4'); ASG = ('vec', 'dyn', 'stk')
+OPINFO = {
+    'PUSH_C': (M_PUSH, ('vec', 'stk'), None), 'PUSH_M': (M_PUSH, ('vec',), None), 'PUSH_BACK_C': (M_PUSH, VS, None), 'PUSH_BACK_M': (M_PUSH, VS, None), 'EMPLACE': (M_PUSH, VS + ('stk',), None),
+    'POP': (M_POP, VS + ('stk',), 'nonempty'), 'RESIZE': (M_RESIZE, VS, None), 'RESIZE_C': (M_RESIZE, VS, None), 'RESIZE_M': (M_RESIZE, VS, None), 'RESIZE_I': (M_RESIZE, VS, None),
+    'CLEAR': (M_CLEAR, ('vec',), None), 'DETACH': (M_CLEAR, ('vec',), None), 'SET': (M_SET, VS + ('dyn', 'stk'), 'nonempty'),
+    'COPY_B': (M_COPY, VS + ('dyn', 'stk'), 'noB'), 'ASSIGN_A_B': (M_COPY, ASG, 'B'), 'ASSIGN_B_A': (M_COPY, ASG, 'B'), 'SELF_ASSIGN': (M_COPY, ASG, None),
+    'MOVE_B': (M_MOVE, VS + ('dyn', 'stk'), 'noB'), 'MASSIGN_A_B': (M_MOVE, ASG, 'B'), 'MASSIGN_B_A': (M_MOVE, ASG, 'B'), 'SWAP': (M_SWAP, VS + ('dyn',), 'B'),
+    'CTOR_B': (M_B, VS + ('dyn', 'stk'), 'noB'), 'DTOR_B': (M_B, VS + ('dyn', 'stk'), 'B'), 'PUSH_B': (M_B, VS + ('stk',), 'B'),
+    'CTORN_A': (M_CTORN, ('dyn',), None), 'CTORN_B': (M_CTORN, ('dyn',), 'noB'), 'CTORDEF_A': (M_B, ('dyn', 'stk'), None), 'CTORDEF_B': (M_B, ('dyn', 'stk'), 'noB'),
+}
+def expected_ops(kind, sh, mask):
+    """bit set of the operations that must be executable as the first solver-chosen operation in shape sh (reachability witnesses)"""
+    m = 0
+    for name, (cls, conts, pre) in OPINFO.items():
+        if kind not in conts or not (mask & cls): continue
+        if pre == 'nonempty' and sh.A[0] == 0: continue
+        if pre == 'B' and sh.B is None: continue
+        if pre == 'noB' and sh.B is not None: continue
+        m |= 1 << O[name]
+    return m
+
 def lens_for(kind, sh, cap_len):
     """lengths worth offering to resize()/dyn_array(n) in shape sh: one per behaviour class (shrink to 0, shrink by one, same, grow inside
     the capacity, up to the capacity, beyond the capacity (reallocation), far beyond)"""
@@ -164,6 +187,7 @@ def seq_q(c, trk, toks, K, tier, opmask=None, tag=''):
             'LENS': ','.join(str(x) for x in lens), 'NLENS': len(lens),
             'LENS2': ','.join(str(x) for x in lens2), 'NLENS2': len(lens2), 'MAXN': maxn, 'VP_MAXBLK': nblk}
     if opmask is not None: defs['OPMASK0'] = '0x%xu' % opmask
+    defs['EXPECT_OPS'] = '0x%xu' % expected_ops(c, sh, opmask if opmask is not None else 0xFFFF)
     shape = 'A: size %d capacity %d' % sh.A + ('; B: size %d capacity %d' % sh.B if sh.B else '; B: not constructed')
     return Q(name, u, 'c13_seq.c', 'harness', defs=defs, unwind=max(2 * maxn + 3, nblk + 2, 6), unwind_fn=[(r'^ir2c_mem', 8 * maxn + 10)], extra=['--object-bits', '12', '--slice-formula'], inline_witness=True,
              timeout=900 if K == 1 else 2400, mem_gb=5 if K == 1 else 8,
